@@ -21,6 +21,18 @@ CHECKS = {
  "C11": ("model_checking", "TLA+ spec Bins.tla: TLC theorems on BinOf (half-open owner admissible, edges admit the two neighbours, outside/non-finite -> no bin, flat order = mid-point order); trace validation (Trace_C11): single fills on a quarter-bin lattice incl. +-inf/NaN/1e30 for 1-d and 2-d binnings and three scalings, and whole PLAIN/VEGAS/multi-channel iterations with three distributions recomputed fill by fill (the spec branches on edge fills)",
          "Every observed fill must land in a bin BinOf admits (or nowhere), every bin must report exactly the sums of the values the spec routed to it times 1/area and the iteration's full call count.",
          "TLC; dyadic parameters/coordinates make the library arithmetic exact; 'separate integration with the indicator function' is represented by recomputing each bin from the recorded fills", "5/C11"),
+ "C02": ("model_checking", "TLA+ spec Call.tla (call state machine with accumulator): TLC explores all small iterations (MC_Call); trace validation (Trace_Call) of real PLAIN/VEGAS/multi-channel iterations: one event per draw / map call / integrand entry / exit, the spec recomputes calls, non_zero, finite, sum, sumsq and adjustment data exactly and compares with the reported result",
+         "Inputs are constructed so that every f*w is a small dyadic number: sums are identical under any summation order, so only a semantic change can cause a mismatch. Exactly-N evaluations follows from the number of IntEnd events the machine consumed.",
+         "TLC; exactness by construction (integer integrand values, dyadic grids / densities); derived value/variance/error checked by the driver in long double with a conditioning-scaled 8 eps tolerance", "5/C02"),
+ "C06": ("model_checking", "TLA+ spec Call.tla + MC_Call invariant NonFiniteIsZero (shadow accumulator with poisoned evaluations zeroed, all small iterations); two-lane trace validation (Trace_C06): poisoned run vs. the same run returning zero, 4 adaptive iterations, all ids of sums / bins / adjustment data / next grid or weights equal, nz differs by the poison count",
+         "Non-interference stated as lane equality and checked by TLC on every iteration of real adaptive runs; poison from the integrand, from values handed to 1-d/2-d distributions and from an infinite weight.",
+         "TLC; same mt19937 seed in both lanes (C10 guarantees equal consumption); hexfloat interning", "5/C06"),
+ "C10": ("model_checking", "TLA+ spec Call.tla (Draw: PerCall = (d | d+1) * Usage(digits, floor log2 range)); MC_Call invariant FixedConsumption; trace validation (Trace_Call) with a counting engine wrapper over 9 standard and 9 synthetic odd-range engines x 3 numeric types x 3 integrators: raw draws before every call, nothing after the last, stored generator = discard(calls * usage), predictor = measured cost",
+         "Every Draw event must carry exactly the spec's per-call amount independent of value, channel, weight request or non-finite results.",
+         "TLC; counting<E> wrapper; libstdc++'s generate_canonical", "5/C10"),
+ "C17": ("model_checking", "TLA+ spec Call.tla (phase machine Draw -> MapCoord -> MapCoordDone -> IntBegin -> [WeightReq][MapDens] -> IntEnd [MapDens]); TLC explores all single/multi-call behaviours (MC_Call: DensOnlyWhenNeeded, DensWhenNeeded); trace validation (Trace_Call) of instrumented map / integrand events incl. channel, enabled list, random-number id, buffer addresses and checksums, unit-interval classes, bins",
+         "The recorded event sequence of every call must be a path of the protocol machine; densities only when needed and with untouched buffers.",
+         "TLC; instrumented functors; interned addresses / hexfloat checksums", "5/C17"),
 }
 
 NOT_YET = {}
